@@ -5,6 +5,8 @@ import (
 	"fmt"
 	"os"
 	"path/filepath"
+	"strings"
+	"time"
 
 	"gitlab.com/aquachain/aquachain/aqua/accounts"
 	"gitlab.com/aquachain/aquachain/aqua/accounts/keystore"
@@ -446,6 +448,9 @@ func (x *st) exercise(s *subject, acc accounts.Account, path string, k int) bool
 		good = false
 	}
 
+	// --- wrong passphrases and an altered file while the account IS unlocked ---
+	x.whileUnlocked(s, acc, byAddr, path, orig)
+
 	// --- near-miss passphrases ----------------------------------------------
 	for _, m := range pickNear(r, nearMisses(r, s.pass, 6), 8) {
 		wit := map[string]interface{}{"tried_pass_hex": hx([]byte(m.S))}
@@ -518,6 +523,116 @@ func (x *st) exercise(s *subject, acc accounts.Account, path string, k int) bool
 		good = false
 	}
 	return good
+}
+
+// whileUnlocked: the account is unlocked with the right passphrase (once
+// indefinitely, once with a one-hour timeout) and left unlocked. In that state
+// every further Unlock / TimedUnlock with another passphrase must still return
+// an error, and an Unlock against an altered key file must return an error or
+// leave the original key in place. Afterwards the account is locked again and
+// must not sign. No wall-clock enters a verdict: the one-hour expiry never
+// fires inside a case and Lock removes the key synchronously.
+func (x *st) whileUnlocked(s *subject, acc, byAddr accounts.Account, path string, orig []byte) {
+	c, r := x.c, x.r
+	var near []nearMiss
+	for _, m := range nearMisses(r, s.pass, 4) {
+		if m.Kind != "trailing_nul" { // HMAC twins have their own signature elsewhere
+			near = append(near, m)
+		}
+	}
+	near = pickNear(r, near, 3)
+	// one alteration of ciphertext or mac to another hex digit (another byte value)
+	var cands []alt
+	if all, err := enumAlts(orig); err == nil {
+		for _, a := range all {
+			if (a.Field == "ciphertext" || a.Field == "mac") && strings.Contains(hexDigits, a.To) && !strings.EqualFold(a.From, a.To) {
+				cands = append(cands, a)
+			}
+		}
+	}
+	for _, state := range []string{"indefinitely", "timed"} {
+		op := "Unlock"
+		unlock := func() error { return x.ks.Unlock(byAddr, s.pass) }
+		if state == "timed" {
+			op = "TimedUnlock"
+			unlock = func() error { return x.ks.TimedUnlock(byAddr, s.pass, time.Hour) }
+		}
+		err, pan := call(unlock)
+		if pan != nil || err != nil {
+			x.t.report(c, "roundtrip_failed", op, s.format, fmt.Sprintf("%s with the right passphrase: err=%v panic=%v", op, err, pan), s.witness(nil))
+			x.ks.Lock(acc.Address)
+			continue
+		}
+		sig, err := x.ks.SignHash(acc, x.hash)
+		if err != nil {
+			x.t.report(c, "roundtrip_failed", "SignHash", s.format, fmt.Sprintf("SignHash after %s: %v", op, err), s.witness(nil))
+			x.ks.Lock(acc.Address)
+			continue
+		}
+		if who, _ := x.signer(sig); who != hx(s.addr[:]) {
+			x.t.report(c, "roundtrip_wrong_key", op, s.format, fmt.Sprintf("signer after %s is %s, want %x", op, who, s.addr), s.witness(nil))
+		}
+		cause := "while_unlocked_" + state
+		for _, m := range near {
+			c.CountN("store_while_unlocked_"+state+"_nearmiss_tried", 2)
+			wit := map[string]interface{}{"tried_pass_hex": hx([]byte(m.S)), "kind": m.Kind, "state": "unlocked " + state}
+			for _, try := range []struct {
+				op string
+				f  func() error
+			}{
+				{"Unlock", func() error { return x.ks.Unlock(byAddr, m.S) }},
+				{"TimedUnlock", func() error { return x.ks.TimedUnlock(byAddr, m.S, time.Minute) }},
+			} {
+				err, pan := call(try.f)
+				switch {
+				case pan != nil:
+					x.t.report(c, "wrong_passphrase_panics", try.op, cause, fmt.Sprintf("panic: %v", pan), s.witness(wit))
+				case err == nil:
+					x.t.report(c, "other_passphrase_unlocks", try.op, cause,
+						fmt.Sprintf("account unlocked %s with the right passphrase; %s then returned nil for the different passphrase %q (%s)", state, try.op, m.S, m.Kind), s.witness(wit))
+				default:
+					c.Count("store_while_unlocked_" + state + "_nearmiss_rejected")
+				}
+			}
+		}
+		if len(cands) > 0 {
+			a := cands[r.Intn(len(cands))]
+			js := a.apply(orig)
+			if err := os.WriteFile(path, js, 0o600); err != nil {
+				panic(err)
+			}
+			wit := map[string]interface{}{"alteration": a, "altered_file": string(js), "state": "unlocked " + state}
+			c.Count("store_while_unlocked_altered_tried")
+			err, pan := call(func() error { return x.ks.Unlock(byAddr, s.pass) })
+			switch {
+			case pan != nil:
+				x.t.report(c, "tamper_panics", "Unlock", a.Field+"_while_unlocked", fmt.Sprintf("panic: %v", pan), s.witness(wit))
+			case err != nil:
+				c.Count("store_while_unlocked_altered_rejected")
+			default:
+				// accepted: the property then demands that the key in use is still the original
+				who := "sign_failed"
+				if sig, err := x.ks.SignHash(acc, x.hash); err == nil {
+					who, _ = x.signer(sig)
+				}
+				if who != hx(s.addr[:]) {
+					x.t.report(c, "tamper_yields_different_key", "Unlock", a.Field+"_while_unlocked",
+						fmt.Sprintf("Unlock on a file with altered %s while unlocked %s succeeded and the account signs as %s, want %x", a.Field, state, who, s.addr), s.witness(wit))
+				} else {
+					c.Count("store_while_unlocked_altered_accepted_original_key")
+				}
+			}
+			if err := os.WriteFile(path, orig, 0o600); err != nil {
+				panic(err)
+			}
+		}
+		x.ks.Lock(acc.Address)
+		if _, err := x.ks.SignHash(acc, x.hash); err == nil {
+			x.t.report(c, "other_passphrase_unlocks", "SignHash", "signs_after_lock", "SignHash succeeds after Lock: later wrong-passphrase observations would not be on a locked account", s.witness(nil))
+		} else {
+			c.Count("store_lock_checked")
+		}
+	}
 }
 
 // plainStore: the unencrypted store must hand back the identical key as well
